@@ -1,4 +1,5 @@
 """Program-level correspondence: Go interpreter vs Lean model evaluator vs Lean spec semantics.
+(generators, class G: expr_program flow_program copy_program call_program exc_program coll_program text_program scope_program)
 
 run_stream(ctx, stream, progs, prop) where progs = list of (zngen.Program, inputs-dict):
   harness `run` (real parser + real evaluator), harness `ast` (real parser, tree dump),
